@@ -460,7 +460,8 @@ func normalizeTree(repo string, extraEnv []string, overlay map[string][]byte) (m
 	var pendingNotes []string
 	var good []*packages.Package // packages of the last overlay that type-checked
 	goodOv := overlay
-	for round := 0; round < 8; round++ {
+	capturesDone := false
+	for round := 0; round < 9; round++ {
 		pkgs, err := loadTyped(repo, extraEnv, cur, packages.LoadSyntax)
 		if err != nil {
 			return goodOv, good, notes, inlined
@@ -507,7 +508,16 @@ func normalizeTree(repo string, extraEnv []string, overlay map[string][]byte) (m
 				inlined[k] = true
 			}
 		}
+		if len(es) == 0 && !capturesDone {
+			capturesDone = true
+			es = ns.planCaptures()
+		}
 		if len(es) == 0 {
+			if d := os.Getenv("FLAMECHECK_DUMP_NORMALISED"); d != "" {
+				for f, b := range cur {
+					_ = os.WriteFile(filepath.Join(d, strings.ReplaceAll(strings.TrimPrefix(f, "/"), "/", "_")), b, 0o644)
+				}
+			}
 			return cur, pkgs, notes, inlined
 		}
 		next, ok := applyEdits(es, cur)
